@@ -223,6 +223,7 @@ func checkMain(args []string) {
 			}
 			for _, o := range rep.Obligations {
 				if len(o.Tags) == 0 || hasTag(o.Tags, *prop) || !direct[k] {
+					o.Dep = !direct[k]
 					obls = append(obls, o)
 				}
 			}
@@ -297,8 +298,8 @@ func checkMain(args []string) {
 		var pin []string
 		seen := map[string]bool{}
 		for _, o := range obls {
-			if o.Cover || len(o.Tags) == 0 || seen[o.Name] {
-				continue
+			if o.Cover || len(o.Tags) == 0 || seen[o.Name] || o.Dep {
+				continue // (obligations of dependencies are not pinned: whether a function is a dependency follows the call graph)
 			}
 			seen[o.Name] = true
 			pin = append(pin, o.Name)
